@@ -52,13 +52,20 @@ CanGrowTo(w, n) == /\ w.kind # "fixed"                    \* fixed: grow() alway
 CanFail(w) == w.kind \in {"caller", "fixed"}              \* Vec / std::string abort instead
 
 \* ---- actions ---------------------------------------------------------------------------
-Init == /\ \E k \in Kinds, c \in 1..MaxCap : s = New(k, c)
+\* capacity 0 is the common start: an empty std::string, and diplomat_buffer_write_create(0) from the JS/Dart/Kotlin runtimes
+Init == /\ \E k \in Kinds, c \in 0..MaxCap : s = New(k, c)
         /\ accepted = <<>> /\ touchedMax = 0 /\ calls = 0
 
 WriteBegin(c) ==
   /\ s.pc = "idle" /\ calls < MaxCalls
   /\ s' = FBegin(s, c) /\ calls' = calls + 1
   /\ UNCHANGED <<accepted, touchedMax>>
+
+\* `write_char(ch)` is the same critical section entered with the UTF-8 encoding of one character (fmt::Write's provided
+\* method forwards to write_str; an implementation that overrides it must behave identically)
+IsOneChar(c) == \/ (Len(c) = 1 /\ c[1] < 128) \/ (Len(c) = 2 /\ c[1] \in 192..223)
+                \/ (Len(c) = 3 /\ c[1] \in 224..239) \/ (Len(c) = 4 /\ c[1] \in 240..247)
+WriteCharBegin(c) == IsOneChar(c) /\ WriteBegin(c)
 
 GrowOk(n) ==
   /\ s.pc = "grow" /\ n <= MaxCap /\ CanGrowTo(s, n)
@@ -83,7 +90,7 @@ Flush ==
   /\ touchedMax' = IF s.kind = "fixed" THEN Max(touchedMax, s.len + 1) ELSE touchedMax
   /\ UNCHANGED <<accepted, calls>>
 
-Next == \/ \E c \in Chunks : WriteBegin(c)
+Next == \/ \E c \in Chunks : WriteBegin(c) \/ WriteCharBegin(c)
         \/ \E n \in 1..MaxCap : GrowOk(n)
         \/ GrowFail \/ Copy \/ Flush
 Spec == Init /\ [][Next]_vars
@@ -95,7 +102,7 @@ BytesIsNull(w) == w.failed
 LenOrZero(w)   == IF w.failed THEN 0 ELSE w.len
 
 \* ---- properties (C12) ------------------------------------------------------------------
-TypeOK    == /\ s.len \in 0..MaxCap /\ s.cap \in 1..MaxCap /\ s.failed \in BOOLEAN
+TypeOK    == /\ s.len \in 0..MaxCap /\ s.cap \in 0..MaxCap /\ s.failed \in BOOLEAN
              /\ s.pc \in {"idle", "grow", "copy"} /\ Len(s.buf) = s.size
 InBounds  == /\ s.len <= s.cap
              /\ touchedMax <= s.size                       \* never a byte beyond the buffer
